@@ -189,6 +189,7 @@ from vgi_rpc.rpc._wire import (
     _validate_call_signature,
     _validate_params,
     _validate_result,
+    _write_collector_logs,
     _write_error_batch,
     _write_error_stream,
     _write_message_batch,
@@ -303,6 +304,7 @@ __all__ = [
     "_validate_params",
     "_validate_protocol_params",
     "_validate_result",
+    "_write_collector_logs",
     "_write_error_batch",
     "_write_error_stream",
     "_write_message_batch",
